@@ -3,16 +3,16 @@ VIEW view
 CONSTANTS
   Uris = {"u1"}
   Texts = {"t1","t2"}
-  MaxMsgs = 3
-  MsgKinds = {"open","change","close"}
-  MaxCfg = 0
+  MaxMsgs = 2
+  MsgKinds = {"change","close","cfg"}
+  MaxCfg = 1
   MaxDisk = 0
   OnDisk = {}
   InlineOpen = TRUE
   InlineChange = TRUE
   InlineClose = TRUE
   EnableReindex = FALSE
-  InitOpen = {}
+  InitOpen = {"u1"}
   Outside = {"u1"}
-  CfgAddsLib = FALSE
+  CfgAddsLib = TRUE
 INVARIANTS Emit
